@@ -25,7 +25,7 @@ def run(c):
         "unicode.IsLetter / unicode.IsDigit are parameters of the model (shipped per case as tables computed by the Go library)",
         "stack: the number of simultaneously active readNodes calls is bounded by 258 for every input (C20_parser_recursion_bounded, on an instrumented copy of the block parser proved equal to it: parser_erase); the frames of the real code are observed only through a child process with a 32 MB stack cap on inputs of several hundred thousand levels",
         "cost: the number of nodes import expansion can add is bounded by maxExpandedNodes (proved for the model, C20_tree_size_bounded / C20_import_expansion_bounded / C20_import_charge / C20_tree_size_le_tokens_plus_charges; inputs that multiply the tree are part of every run, each call of Read is watched for a deadline and a heap cap); time and memory as such are not modelled",
-        "the file system seen by `import` is a parameter of the model (files of the harness's own configuration directory); OS path errors (ENAMETOOLONG, EINVAL) are out of the model",
+        "the file system seen by `import` is a parameter of the model keyed by the NAME as written in the directive (files of the harness's own configuration directory and, per case, the other spellings of those files the generator used: `./x`, `../conf/x`, absolute, `sub/x`); relative spellings that depend on the importing file's directory are generated only where they mean the same file from every file that uses them; OS path errors (ENAMETOOLONG, EINVAL) are out of the model",
     ]
     return c.finish(
         rule="grammar-based configurations (directives, nested blocks, macros, snippets, imports of snippets and files with forward/backward/self references, "
@@ -33,7 +33,10 @@ def run(c):
         "special alphabet; snippets/files whose imports multiply the tree (self-doubling, chains, mutual recursion, the exact boundary of the node limit), "
         "the same chains with bodies wrapped in 1..3 levels of blocks (payload and imports at every level, flat + nested mixed, snippets and files) with the import budget read back from readTree (`C20 charge`: charged amount and tree size compared with the model; monitor: tree <= tokens of the main file + charged, charged <= limit, tree <= limit + source size); "
         "deep-nesting inputs of 2*10^5..4*10^5 levels (blocks, one-line blocks, blocks closed by same-line declarations / by a trailing `}`, snippet and file bodies, self-importing snippets and files; generated from `C20 deep <shape> <levels> <close> <variant>`) parsed in a child process whose goroutine stacks are capped at 32 MB: the child must come back with an error or a bounded tree (C20/crash); "
-        "blocks 'closed' by a same-line macro/snippet declaration (hundreds of lines), macro references inside longer arguments (defined / undefined / value-less / defined later), macros with unusual names (empty, `$`, parentheses, blanks, quotes, braces) referenced as whole arguments and inside arguments together with the generator's own record of which references are to macros declared at that point (op-line groups `| r`); each input runs the real lexer/parser (watchdog + recover) and the Lean model; distinct = distinct op lines",
+        "blocks 'closed' by a same-line macro/snippet declaration (hundreds of lines), macro references inside longer arguments (defined / undefined / value-less / defined later), macros with unusual names (empty, `$`, parentheses, blanks, quotes, braces) referenced as whole arguments and inside arguments together with the generator's own record of which references are to macros declared at that point (op-line groups `| r`); "
+        "imports through REAL files in every spelling (with / without `.conf`, bare, `./`, `../conf/`, doubled slash, absolute = marker /VERIFC20ABS replaced by the run's directory, a sub-directory `sub/`; plain, quoted, inside 1..3 blocks, through a snippet): cycles of 1..3 files with or without the main file (written to disk as main.conf), chains ending in a leaf, chains of 250..300 files around the depth limit; the other spellings of a file travel as further `| f` groups (what the model's file system answers for that name); "
+        "environment placeholders nested in / spliced around each other (placeholder before, after, inside the name, between the halves `{e|nv:`, `{env|:`, `{|env:`, unclosed, several levels; set and unset names incl. names with `}`, blanks, `-`, empty; values that are themselves placeholder text) in directives, blocks, snippet bodies imported at top level / inside blocks / through another snippet, imported files and their snippets, macro values; "
+        "every Read runs under a deadline, a heap cap and a cap on goroutine stacks (32 MB): a call that runs away is reported (C20/unbounded-recursion, C20/timeout) and, when it recursed through the files, brought back by emptying the configuration directory so that the run goes on; monitor C20/placeholder-residue (no `{env:` + non-empty `$`-free name + `}` in any name or argument of a returned tree) and the print/parse round trip also on trees with inert `{env:` text; each input runs the real lexer/parser (watchdog + recover) and the Lean model; distinct = distinct op lines",
         explanation="theorems for all character lists / all expressible trees; model tied to the code by differential runs on bytes; "
         "independent Go monitor for crash-freedom, output well-formedness and print/parse round trip",
         search=search,
